@@ -874,8 +874,10 @@ Spec == Init /\ [][Next]_vars
 ----------------------------------------------------------------------------
 (* Properties *)
 
+\* the incrementally maintained logical state is the fold of the history
+LogicalOK == logical = StateAfter(hist, Len(hist))
+
 TypeOK ==
-    /\ logical = StateAfter(hist, Len(hist))
     /\ mode \in {"open", "crashed", "recovering", "err"}
     /\ lw.pc \in {"idle", "planned", "ended", "cleaned"}
     /\ cw.pc \in {"idle", "writing", "written"}
